@@ -128,6 +128,24 @@ def _peer_server(sock: socket.socket, behaviour: str, result: dict[str, str]) ->
         result["peer_error"] = f"{type(exc).__name__}: {exc}"
 
 
+def _caller_outcome(exc: BaseException) -> str:
+    """What recv_packet told its caller.  The high-level clients answer ECONNABORTED for every lost connection and chain the reason
+    (`raise ... from exc`): the reason is what is classified - the endpoint's own end-of-stream report (ConnectionAbortedError that is not a
+    TLS error) is the clean end of the stream, a TLS error anywhere in the chain is the truncation being reported."""
+    if isinstance(exc, (TimeoutError, asyncio.TimeoutError)):
+        return "caller_timeout"
+    chain: list[BaseException] = []
+    cur: BaseException | None = exc
+    while cur is not None and cur not in chain:
+        chain.append(cur)
+        cur = cur.__cause__
+    if any(isinstance(e, ssl.SSLError) for e in chain):
+        return "caller_error"
+    if isinstance(chain[-1], ConnectionAbortedError):
+        return "caller_eof"
+    return "caller_error"
+
+
 def _pair() -> tuple[socket.socket, socket.socket]:
     srv = socket.socket()
     srv.bind(("127.0.0.1", 0))
@@ -157,6 +175,7 @@ def client_scenario(flavour: str, mode: str, ctx_kind: str, behaviour: str, buff
     th.start()
     log: list[dict[str, Any]] = []
     events: list[dict[str, Any]] = []
+    caller: list[str] = []
     proto = (BufferedStreamProtocol if buffered else StreamProtocol)(StringLineSerializer())
     old_cert = os.environ.get("SSL_CERT_FILE")
     os.environ["SSL_CERT_FILE"] = os.path.join(tlspeer.CERT_DIR, "cert.pem")
@@ -176,8 +195,15 @@ def client_scenario(flavour: str, mode: str, ctx_kind: str, behaviour: str, buff
                         for _ in range(3):
                             try:
                                 client.recv_packet(timeout=5)
-                            except Exception:  # noqa: BLE001
+                            except Exception as exc:  # noqa: BLE001
+                                caller.append(_caller_outcome(exc))
                                 break
+                        for _ in range(2):  # what the *caller* is told when it asks again: the first answer is the lasting one
+                            try:
+                                client.recv_packet(timeout=5)
+                                caller.append("caller_data")
+                            except Exception as exc:  # noqa: BLE001
+                                caller.append(_caller_outcome(exc))
                         client.close()
                 except Exception as exc:  # noqa: BLE001
                     events.append({"ev": "crash:" + type(exc).__name__})
@@ -196,8 +222,15 @@ def client_scenario(flavour: str, mode: str, ctx_kind: str, behaviour: str, buff
                         for _ in range(3):
                             try:
                                 await asyncio.wait_for(client.recv_packet(), 5)
-                            except Exception:  # noqa: BLE001
+                            except Exception as exc:  # noqa: BLE001
+                                caller.append(_caller_outcome(exc))
                                 break
+                        for _ in range(2):
+                            try:
+                                await asyncio.wait_for(client.recv_packet(), 5)
+                                caller.append("caller_data")
+                            except Exception as exc:  # noqa: BLE001
+                                caller.append(_caller_outcome(exc))
                         await client.aclose()
 
                 try:
@@ -231,6 +264,7 @@ def client_scenario(flavour: str, mode: str, ctx_kind: str, behaviour: str, buff
         else:
             evs.append({"ev": e["ev"]})
             break
+    evs += [{"ev": c} for c in caller]
     return {"kind": "read", "par": {"total": 2, "cut": 1 if behaviour == "truncate" else 2, "plain": len(MSG), "standard": standard}, "events": traces.uniform(evs, EVD), "meta": meta}
 
 
